@@ -175,6 +175,7 @@ static bool run(const Case &c, pbt::Ctx &ctx)
                 ent::Params p;
                 p.seed = c.seed; p.len = c.len; p.aad_len = c.aad_len; p.tag_len = c.tag_len; p.legacy = c.legacy && !e->legacy.empty();
                 p.w = 1 + c.seed % 48; p.mask = 0x1f;
+                p.xts_short = true;
                 if (c.entry.find("_nt") != std::string::npos) p.len = p.len / 64 * 64;
                 if (e->group == "cbc") p.len = p.len / 16 * 16;
                 ent::Call call;
@@ -187,7 +188,7 @@ static bool run(const Case &c, pbt::Ctx &ctx)
                 if (c.null_first && !p.legacy)
                         for (int i = 0; i < call.nargs && !nulled; i++)
                                 if (call.desc[i].kind != ent::SCALAR && call.desc[i].null_err && !call.desc[i].null_unspecified) { argv[i] = 0; nulled = true; }
-                g_exit_class = nulled ? "error-return" : "valid,len=" + std::to_string(p.len % 16) + (p.len > 128 ? ",bulk" : "");
+                g_exit_class = nulled ? "error-return" : (e->group == "xts" && p.len < 16) ? "sub-block" : "valid,len=" + std::to_string(p.len % 16) + (p.len > 128 ? ",bulk" : "");
                 bool okc = guard::guarded_call(fi, [&] { tramp_invoke(call.fn, argv, call.nargs); });
                 if (!okc) {
                         A.describe(fi);
@@ -300,6 +301,7 @@ int main(int argc, char **argv)
                 for (auto &f : mh::families({ mh::MH_SHA1, mh::MH_SHA256, mh::MH_MURMUR }))
                         if (f.runnable) g_mh.push_back(f);
                 g_O.discover("");
+                aops::g_xts_short = true;
                 g_entries = ent::all_entries();
                 for (size_t i = 0; i < isal_symtab_n; i++) {
                         std::string n = isal_symtab[i].name;
@@ -370,7 +372,7 @@ int main(int argc, char **argv)
                         c.legacy = coin(1, 3);
                         c.null_first = coin(1, 4);
                         c.len = weighted({ 1, 6, 3 }) == 0 ? 0 : (coin() ? 16 * rng<uint64_t>(1, 40) : rng<uint64_t>(1, 1500));
-                        if (e.group == "xts") c.len = 16 * rng<uint64_t>(1, 40) + rng<uint64_t>(0, 15);
+                        if (e.group == "xts") c.len = coin(1, 5) ? rng<uint64_t>(0, 15) : 16 * rng<uint64_t>(1, 40) + rng<uint64_t>(0, 15);
                         c.aad_len = coin(1, 4) ? 0 : rng<uint64_t>(1, 64);
                         c.tag_len = pick<int>({ 16, 12, 8 });
                         break;
